@@ -177,22 +177,22 @@ def canon(e):
     return k
 
 
-def rule_length(ctx, f):
-    ctx.rule("C11-G3", "an indirect /Length is resolved through the resolver the parser was given, with the integer-only filter, wherever a stream "
+def rule_length(ctx, f, rid="C11-G3"):
+    ctx.rule(rid, "an indirect /Length is resolved through the resolver the parser was given, with the integer-only filter, wherever a stream "
              "body is delimited; both callers pass their own resolver on")
     b = f.body("parser::parse_stream_object")
     if b is None:
-        ctx.lost("C11-G3", "parser::parse_stream_object")
+        ctx.lost(rid, "parser::parse_stream_object")
         return
     fl = Flow(b)
     rf = [(bi, t) for bi, t in F.calls(b) if t.get("callee") == "object::Resolve::resolve_flags"]
-    ctx.floor("C11-G3", len(rf), 1, "resolve_flags call for /Length")
+    ctx.floor(rid, len(rf), 1, "resolve_flags call for /Length")
     for bi, t in rf:
         c = F.op_const(t["args"][2])
         bits = c.get("bits") if c else None
         res_l = arg_local(t, 0)
         ok = bits == 1 and res_l is not None and fl.derives_from_arg(res_l, 3)
-        ctx.check(ok, "C11-G3", "parse_stream_object#length-filter",
+        ctx.check(ok, rid, "parse_stream_object#length-filter",
                   "/Length is resolved with filter bits %s (expected INTEGER = 1) or not through the caller's resolver" % bits, t["span"],
                   detail="r.resolve_flags(len_ref, ParseFlags::INTEGER, ..)")
         rl = arg_local(t, 1)
@@ -201,25 +201,52 @@ def rule_length(ctx, f):
         getlen = [a for a in ats if a[0] == "call" and a[1] == "primitive::Dictionary::get"]
         keys = sorted({a[1]["str"] for a in ats if a[0] == "const" and "str" in a[1]})
         key = keys[0] if len(keys) == 1 and getlen else None
-        ctx.check(key == "Length" and "as:Reference" in flds, "C11-G3", "parse_stream_object#length-key", "the resolved reference is not the value of /Length (key %r)" % key, t["span"], detail="dict.get(\"Length\") -> Reference")
+        ctx.check(key == "Length" and "as:Reference" in flds, rid, "parse_stream_object#length-key", "the resolved reference is not the value of /Length (key %r)" % key, t["span"], detail="dict.get(\"Length\") -> Reference")
     callers = []
     for cb in f.bodies.values():
         for bi, t in F.calls(cb):
             if F.callee_name(t) == "parser::parse_stream_object":
                 callers.append((cb, t))
-    ctx.floor("C11-G3", len(callers), 2, "callers of parse_stream_object (object parser, stream parser)")
+    ctx.floor(rid, len(callers), 2, "callers of parse_stream_object (object parser, stream parser)")
     for cb, t in callers:
         fl2 = Flow(cb)
         l = arg_local(t, 2)
         rparams = [k for k in range(1, cb["argc"] + 1) if cb["locals"][k]["s"].startswith("&impl Resolve") or "Resolve" in cb["locals"][k]["s"]]
         ok = l is not None and any(fl2.derives_from_arg(l, k) for k in rparams)
-        ctx.check(ok, "C11-G3", cb["id"] + "#passes-resolver", "the stream parser is not given the caller's resolver (indirect lengths cannot be followed)", t["span"], detail="parse_stream_object(dict, lexer, r, ctx)")
+        ctx.check(ok, rid, cb["id"] + "#passes-resolver", "the stream parser is not given the caller's resolver (indirect lengths cannot be followed)", t["span"], detail="parse_stream_object(dict, lexer, r, ctx)")
+
+
+def rule_header(ctx, f):
+    ctx.rule("C11-G5", "the header of an object stream is N pairs (object number, offset): the reader takes two integers per member and keeps the second "
+             "as the member's offset")
+    b = f.impl_method("object::Object", "object::stream::ObjectStream", "from_primitive")
+    if b is None:
+        ctx.lost("C11-G5", "<ObjectStream as Object>::from_primitive")
+        return
+    cfg = CFG(b)
+    fl = Flow(b)
+    loops = cfg.loops()
+    pushes = [(bi, t) for bi, t in F.calls(b) if last_seg(F.callee_name(t)) == "push" and any(bi in body for body in loops.values())]
+    nexts = [bi for bi, t in F.calls(b) if last_seg(F.callee_name(t)) == "next" and "Lexer" in F.callee_name(t)]
+    if not ctx.floor("C11-G5", len(pushes), 1, "offsets.push in the header loop of the object-stream reader"):
+        return
+    for bi, t in pushes:
+        body = [bd for bd in loops.values() if bi in bd]
+        body = min(body, key=len)
+        inl = sorted(n for n in nexts if n in body)
+        vl = arg_local(t, 1)
+        src = sorted({a[2] for a in fl.origins(vl) if a[0] == "call" and a[2] in inl}) if vl is not None else []
+        ok = len(inl) == 2 and len(src) == 1 and any(cfg.dominates(o, src[0]) for o in inl if o != src[0])
+        ctx.check(ok, "C11-G5", "ObjectStream::from_primitive#pairs", "the header loop reads %d integer(s) per member and keeps the one read %s: the offsets of the members are "
+                  "taken from the wrong numbers and every compressed object is cut out at the wrong place" % (len(inl), "first" if src and inl and src[0] == inl[0] else "?"),
+                  t["span"], detail="(object number, offset) per member; offsets.push(offset)")
 
 
 def run(ctx):
     f = F.load("default")
     ctx.count("bodies", len(f.bodies))
     rule_same_gate(ctx, f)
+    rule_header(ctx, f)
     # G1: shared with C03-G2
     sub = type(ctx)(ctx.prop, ctx.tier, ctx.seed)
     c03.rule_lookahead(sub, f)
